@@ -6,9 +6,9 @@ Import ListNotations.
 Local Open Scope Z_scope.
 
 (** integer distances; [sub] clamped at zero as s1.ChordAngle.Sub (and the identity below zero) *)
-Definition zops : dist_ops Z := mkOps Z Z.ltb (fun a b => Z.min a (Z.max 0 (a - b))) 0 (10 ^ 9) Z.eqb.
+Definition zops : dist_ops Z := mkOps Z Z.ltb (fun a b => Z.min a (Z.max 0 (a - b))) 0 (10 ^ 9) Z.eqb 0.
 (** the distance arithmetic before bd38ae9: raw subtraction *)
-Definition zops_raw : dist_ops Z := mkOps Z Z.ltb Z.sub 0 (10 ^ 9) Z.eqb.
+Definition zops_raw : dist_ops Z := mkOps Z Z.ltb Z.sub 0 (10 ^ 9) Z.eqb 0.
 
 Definition exact_target (edist : eid -> Z) (cdist : Z -> Z) (uses : bool) (maxbrute : Z) : target Z :=
   mkTarget (fun e lim => if edist e <? lim then Some (edist e) else None)
